@@ -21,6 +21,17 @@ NA = {
 PENDING = "static rule designed in DESIGN section 3; check not yet registered (under construction)"
 
 CHECKS = {
+ "C11": {
+  "text": "Sibling comparison on the type-checked program: the functions that derive optimiser options from the detected "
+          "dialect and feed compile_file are discovered, their boolean setter arguments are recovered symbolically from MIR "
+          "and must be identical across sites; the finalising-optimiser flag must be the same flag; all entry points (library, "
+          "file-to-file, Python binding, run, cldb) must reach the compiler only through these sites; classic path built alike. "
+          "Decides the structural clause (same options by construction), not byte equality of outputs.",
+  "note": "Equal options => equal bytes is C05. Printing clause is C09 (n/a). wasm/ cannot be built offline (it calls "
+          "compile_clvm_inner, which is covered). Siblings are compared with each other, never with a frozen expression.",
+  "technique": "MIR symbolic boolean recovery + sibling comparison + who-may-call",
+  "design": "3.5",
+ },
  "C14": {
   "text": "Static inventory (from MIR) of panic-capable sites of fixed kinds reachable from the front-end entry points - "
           "constant-index accesses, constant-start slicing, unwrap/expect, explicit panics, integer and big-integer division - "
